@@ -580,4 +580,41 @@ theorem lookup_map_snd {α β} (f : α → β) (l : List (String × α)) (k : St
     simp only [List.map_cons, List.lookup_cons]
     cases k == ak <;> simp [ih]
 
+theorem objSys_reparseObj {χ} (r : χ → χ) (o : Obj χ) : objSys (reparseObj r o) = objSys o := by
+  unfold objSys reparseObj
+  rw [lookup_map_snd]
+  cases o.lookup "units_system" with
+  | none => rfl
+  | some v => cases v <;> rfl
+
+theorem getD_reparseObj {χ} (r : χ → χ) (o : Obj χ) (k : String) :
+    ((reparseObj r o).lookup k).getD .none = reparseValWith r ((o.lookup k).getD .none) := by
+  unfold reparseObj
+  rw [lookup_map_snd]
+  cases o.lookup k <;> rfl
+
+/-- re-serialisation of a re-read object, parameter by parameter -/
+theorem toDictG_reparse {χ} (fields : List Field) (extra : KV) (po : Option Sys) (wc : χ → Json) (r : χ → χ) (o : Obj χ)
+    (hv : ∀ f ∈ fields, writeVal wc (reparseValWith r ((o.lookup f.param).getD .none)) =
+      writeVal wc ((o.lookup f.param).getD .none)) :
+    toDictG fields extra po wc (reparseObj r o) = toDictG fields extra po wc o := by
+  refine toDictG_congr _ _ _ _ _ _ (objSys_reparseObj _ _) ?_
+  intro f hf
+  rw [getD_reparseObj]
+  exact hv f hf
+
+theorem labelOf_reparseObj {χ} (r : χ → χ) (o : Obj χ) : labelOf (reparseObj r o) = labelOf o := by
+  unfold labelOf reparseObj
+  rw [lookup_map_snd]
+  cases o.lookup "label" with
+  | none => rfl
+  | some v => cases v <;> rfl
+
+theorem sidesOf_reparseObj {χ} (r : χ → χ) (o : Obj χ) : sidesOf (reparseObj r o) = sidesOf o := by
+  unfold sidesOf reparseObj
+  rw [lookup_map_snd]
+  cases o.lookup "stoichiometry" with
+  | none => rfl
+  | some v => cases v <;> rfl
+
 end Strengths.Dict
